@@ -578,10 +578,8 @@ structure Ctx (xA xB : List Rune) (PR PRat : PState → PState → Prop) : Prop 
   pr_step : ∀ r p q, PR p q → PR (step r p) (step r q)
   pr_err : ∀ p q, PR p q → PR (Scan.err p) (Scan.err q)
   pr_eof : xA = [] → xB = [] → ∀ p q, PR p q → PR (next [] p).2.2 (next [] q).2.2
-  pr_errs : ∀ p q, PR p q → p.errs = q.errs
   cross : ∀ p q, PR p q → PRat (next xA p).2.2 (next xB q).2.2
   at_err : ∀ p q, PRat p q → PRat (Scan.err p) (Scan.err q)
-  at_errs : ∀ p q, PRat p q → p.errs = q.errs
 
 section sim
 variable {xA xB : List Rune} {PR PRat : PState → PState → Prop}
@@ -591,7 +589,7 @@ def Same (xA xB : List Rune) : Prop := xA = [] ∧ xB = []
 
 /-- both runs are inside the common part, with the same look-ahead -/
 def Before (xA xB : List Rune) (PR : PState → PState → Prop) (a b : St) : Prop :=
-  a.1 = b.1 ∧ PR a.2.2 b.2.2 ∧ ∃ u, a.2.1 = u ++ xA ∧ b.2.1 = u ++ xB
+  a.1 = b.1 ∧ PR a.2.2 b.2.2 ∧ (a.1 < 0 → Same xA xB) ∧ ∃ u, a.2.1 = u ++ xA ∧ b.2.1 = u ++ xB
 
 /-- both runs have just read the first rune after the common part -/
 def At (xA xB : List Rune) (PRat : PState → PState → Prop) (a b : St) : Prop :=
@@ -645,18 +643,20 @@ theorem before_next {a b : St} (h : Before xA xB PR a b) :
     Live xA xB PR PRat (next a.2.1 a.2.2) (next b.2.1 b.2.2) := by
   obtain ⟨ca, ra, pa⟩ := a
   obtain ⟨cb, rb, pb⟩ := b
-  obtain ⟨hc, hp, u, ha, hb⟩ := h
+  obtain ⟨hc, hp, _, u, ha, hb⟩ := h
   dsimp only at hc hp ha hb ⊢
   subst ha hb
   cases u with
   | cons r u =>
     simp only [List.cons_append, next_cons_eq]
-    exact Or.inl ⟨rfl, C.pr_step r _ _ hp, u, rfl, rfl⟩
+    refine Or.inl ⟨rfl, C.pr_step r _ _ hp, fun h => ?_, u, rfl, rfl⟩
+    have : (0 : Int) ≤ Int.ofNat r.ch := Int.natCast_nonneg _
+    dsimp only at h; omega
   | nil =>
     simp only [List.nil_append]
     by_cases hs : Same xA xB
     · obtain ⟨rfl, rfl⟩ := hs
-      exact Or.inl ⟨rfl, C.pr_eof rfl rfl _ _ hp, [], rfl, rfl⟩
+      exact Or.inl ⟨rfl, C.pr_eof rfl rfl _ _ hp, fun _ => ⟨rfl, rfl⟩, [], rfl, rfl⟩
     · rw [next_eq_hd xA, next_eq_hd xB]
       exact Or.inr ⟨hs, rfl, rfl, rfl, rfl, C.cross _ _ hp⟩
 
@@ -1432,7 +1432,7 @@ omit C in
 /-- the token text computed from two live end states is the same -/
 theorem consumed_live (c0 : Int) (u0 : List Rune) {a b : St} (h : Live xA xB PR PRat a b) :
     consumed c0 (u0 ++ xA) a.2.1 a.1 = consumed c0 (u0 ++ xB) b.2.1 b.1 := by
-  rcases h with ⟨hc, _, u1, ha, hb⟩ | ⟨_, h1, h2, h3, h4, _⟩
+  rcases h with ⟨hc, _, _, u1, ha, hb⟩ | ⟨_, h1, h2, h3, h4, _⟩
   · rw [ha, hb, hc, consumed_before, consumed_before]
   · rw [h1, h2, h3, h4, consumed_at, consumed_at]
 
@@ -1959,7 +1959,7 @@ theorem rawLoop_sim : ∀ n (flag : Bool) (ca : Int) (ra : List Rune) (pa : PSta
         cases flag with
         | false =>
           rw [rawLoop_false_step ra, rawLoop_false_step rb, if_neg h172, if_neg h172, if_pos hneg, if_pos hneg]
-          exact Or.inl (Or.inl ⟨rfl, C.pr_err _ _ hb.2.1, hb.2.2⟩)
+          exact Or.inl (Or.inl ⟨rfl, C.pr_err _ _ hb.2.1, fun h => absurd (show (0 : Int) < 0 from h) (by decide), hb.2.2.2⟩)
         | true =>
           rw [rawLoop_true_step ra, rawLoop_true_step rb, if_pos h172, if_pos h172]
           exact Or.inl (Or.inl hb)
@@ -1995,7 +1995,7 @@ theorem rawLoop_sim : ∀ n (flag : Bool) (ca : Int) (ra : List Rune) (pa : PSta
           rw [if_neg h1, if_neg h1]
           by_cases h2 : ca < 0
           · rw [if_pos h2, if_pos h2]
-            exact Or.inl (Or.inl ⟨rfl, C.pr_err _ _ hb.2.1, hb.2.2⟩)
+            exact Or.inl (Or.inl ⟨rfl, C.pr_err _ _ hb.2.1, fun h => absurd (show (0 : Int) < 0 from h) (by decide), hb.2.2.2⟩)
           · rw [if_neg h2, if_neg h2]
             exact ih false _ _ _ _ _ _ (hmn (by omega)) (Or.inl hl1)
         | true =>
@@ -2078,26 +2078,35 @@ theorem later_next_dead (hs : ¬ Same xA xB) (hx : xA ≠ []) (_ch : Int) (rest 
     simp only [List.length_cons] at h
     exact Or.inr (Or.inl (by dsimp only; omega))
 
-theorem scan_later (hs : ¬ Same xA xB) (hx : xA ≠ []) : ∀ fuel rest ch p,
-    rest.length ≤ xA.tail.length → (scan fuel rest ch p).1 ≠ none → Dead xA xB (scan fuel rest ch p).2 := by
+omit xA xB in
+/-- a token is read by at least one `next` from the state in which the white space has been skipped: what
+    holds after that `next` (and is kept by every later step) holds in the end -/
+theorem scan_pop {P Q : St → Prop} (hP : SRel (fun a b => P a → P b)) (hQ : SRel (fun a b => Q a → Q b))
+    (hpop : ∀ ch rest p, 0 ≤ ch → Q (ch, rest, p) → P (next rest p)) : ∀ fuel rest ch p,
+    Q (ch, rest, p) → (scan fuel rest ch p).1 ≠ none → P (scan fuel rest ch p).2 := by
   intro fuel
   induction fuel with
   | zero => intro rest ch p _ h; exact absurd rfl h
   | succ n ih =>
-    intro rest ch p hlen
+    intro rest ch p hq
     unfold scan
-    have hw := skipWhite_s len_srel rest ch p
-    generalize skipWhite rest ch p = sw at hw ⊢
+    have hl1 := skipWhite_s hQ rest ch p hq
+    generalize skipWhite rest ch p = sw at hl1 ⊢
     obtain ⟨ch1, rest1, p1⟩ := sw
-    dsimp only at hw ⊢
-    have hl1 : rest1.length ≤ xA.tail.length := Nat.le_trans hw hlen
-    have hdn := later_next_dead hs hx ch1 rest1 p1 hl1
+    dsimp only at hl1 ⊢
+    by_cases c4 : ch1 < 0
+    · have e1 : isIdentRune ch1 0 = false := by unfold isIdentRune; rw [if_pos c4]
+      have e2 : isDecimal ch1 = false := by unfold isDecimal; simp; omega
+      have e3 : ch1 ≠ 45 := by omega
+      simp only [e1, e2, e3, c4, Bool.false_eq_true, ↓reduceIte]
+      intro h; exact absurd rfl h
+    have hdn := hpop ch1 rest1 p1 (by omega) hl1
     have hdn0 := hdn
-    have hlen2 := Scanner.next_length rest1 p1
-    generalize next rest1 p1 = nx at hdn hlen2 ⊢
+    have hq2 := hQ.next ch1 rest1 p1 hl1
+    generalize next rest1 p1 = nx at hdn hq2 ⊢
     obtain ⟨c, r, q⟩ := nx
-    dsimp only at hlen2 ⊢
-    have D := dead_srel xA xB
+    dsimp only at hq2 ⊢
+    have D := hP
     by_cases c1 : isIdentRune ch1 0 = true
     · rw [if_pos c1]; intro _
       exact scanIdentifier_pop D _ _ hdn0
@@ -2115,12 +2124,10 @@ theorem scan_later (hs : ¬ Same xA xB) (hx : xA ≠ []) : ∀ fuel rest ch p,
       · rw [if_pos c32]; intro _; exact scanNumber_s D [45] r c q false true hdn
       rw [if_neg c32]; intro _; exact hdn
     rw [if_neg c3]
-    by_cases c4 : ch1 < 0
-    · rw [if_pos c4]; intro h; exact absurd rfl h
     rw [if_neg c4]
     by_cases c5 : ch1 = 34
     · rw [if_pos c5]; intro _
-      have h1 : Dead xA xB (scanString rest1 p1) := scanString_pop D _ _ hdn0
+      have h1 : P (scanString rest1 p1) := scanString_pop D _ _ hdn0
       generalize scanString rest1 p1 = ss at h1 ⊢
       obtain ⟨c', r', q'⟩ := ss
       exact D.next _ _ _ h1
@@ -2136,11 +2143,10 @@ theorem scan_later (hs : ¬ Same xA xB) (hx : xA ≠ []) : ∀ fuel rest ch p,
     rw [if_neg c7]
     by_cases c8 : ch1 = 59
     · rw [if_pos c8]
-      have h1 := scanComment_s len_srel r c q
+      have h1 := scanComment_s hQ r c q hq2
       generalize scanComment r c q = sc at h1 ⊢
       obtain ⟨c', r', q'⟩ := sc
-      dsimp only at h1 ⊢
-      exact ih r' c' q' (by omega)
+      exact ih r' c' q' h1
     rw [if_neg c8]
     by_cases c9 : ch1 = 172
     · rw [if_pos c9]; intro _
@@ -2159,6 +2165,17 @@ theorem scan_later (hs : ¬ Same xA xB) (hx : xA ≠ []) : ∀ fuel rest ch p,
       rw [if_neg c111]; intro _; exact hdn
     rw [if_neg c11]
     intro _; exact hdn
+
+
+theorem scan_later (hs : ¬ Same xA xB) (hx : xA ≠ []) (fuel : Nat) (rest : List Rune) (ch : Int) (p : PState)
+    (hlen : rest.length ≤ xA.tail.length) (hn : (scan fuel rest ch p).1 ≠ none) :
+    Dead xA xB (scan fuel rest ch p).2 := by
+  have hQ : SRel (fun a b : St => a.2.1.length ≤ xA.tail.length → b.2.1.length ≤ xA.tail.length) :=
+    { refl := fun _ => id
+      trans := fun h1 h2 h => h2 (h1 h)
+      next := fun _ rest p h => Nat.le_trans (Scanner.next_length rest p) h
+      err := fun _ _ _ _ h => h }
+  exact scan_pop (dead_srel xA xB) hQ (fun ch rest p _ h => later_next_dead hs hx ch rest p h) fuel rest ch p hlen hn
 
 end later
 
@@ -2468,7 +2485,7 @@ theorem dispatch_sim (recA recB : List Rune → Int → PState → Option (Kind 
   obtain ⟨cb, rb, pb⟩ := b
   have hc : ca = cb := h.1
   subst hc
-  obtain ⟨u, hra, hrb⟩ := h.2.2
+  obtain ⟨u, hra, hrb⟩ := h.2.2.2
   dsimp only at hra hrb ⊢
   have hl1 := before_next C h
   dsimp only at hl1
@@ -2514,7 +2531,7 @@ theorem dispatch_sim (recA recB : List Rune → Int → PState → Option (Kind 
         exact fin_out .ident 45 u (Or.inl hl1)
       · dsimp only at h5 h6
         simp only [h5, h6, ↓reduceIte]
-        obtain ⟨u', hr, hr'⟩ := hbef.2.2
+        obtain ⟨u', hr, hr'⟩ := hbef.2.2.2
         have hn := scanNumber_sim C [45] false true u' hbef hr hr'
         dsimp only at hn
         generalize scanNumber [45] r c q false true = oa at hn ⊢
@@ -2567,7 +2584,7 @@ theorem dispatch_sim (recA recB : List Rune → Int → PState → Option (Kind 
       exact fin_out (.char 46) 46 u (Or.inl hl1)
     · dsimp only at h5 h6
       simp only [h5, h6, ↓reduceIte]
-      obtain ⟨u', hr, hr'⟩ := hbef.2.2
+      obtain ⟨u', hr, hr'⟩ := hbef.2.2.2
       have hn := scanNumber_sim C [46] true false u' hbef hr hr'
       dsimp only at hn
       generalize scanNumber [46] r c q true false = oa at hn ⊢
@@ -2646,5 +2663,807 @@ theorem dispatch_sim (recA recB : List Rune → Int → PState → Option (Kind 
   exact fin_out (.char ca.toNat) ca u (Or.inl hl1)
 
 end sim10
+
+section sim11
+variable {xA xB : List Rune} {PR PRat : PState → PState → Prop} (C : Ctx xA xB PR PRat)
+include C
+
+/-- one `Scan` in both runs, with the same fuel -/
+theorem scan_sim_eq : ∀ F (a b : St), Before xA xB PR a b →
+    ScanOut xA xB PR PRat (scan F a.2.1 a.1 a.2.2) (scan F b.2.1 b.1 b.2.2) := by
+  intro F
+  induction F with
+  | zero => intro a b h; exact Or.inr ⟨rfl, Or.inl ⟨h.1, h.2.1, h.2.2⟩⟩
+  | succ F ih =>
+    intro a b h
+    rcases skipWhite_gap C h with hb | hcx
+    · rw [scan_succ, scan_succ]
+      exact dispatch_sim C (scan F) (scan F) ih (fun a hc => crossed_scan hc F) hb
+    · rw [scan_skip]
+      exact Or.inl ⟨hcx.1, crossed_scan hcx (F + 1)⟩
+
+/-- one `Scan` in both runs, each with the fuel the token loop gives it -/
+theorem scan_sim {a b : St} (h : Before xA xB PR a b) :
+    ScanOut xA xB PR PRat (scan (a.2.1.length + 2) a.2.1 a.1 a.2.2) (scan (b.2.1.length + 2) b.2.1 b.1 b.2.2) := by
+  have ea := scan_fuel_ge a.2.1 a.1 a.2.2 (a.2.1.length + 2) (Nat.le_refl _) (b.2.1.length + 2)
+  have eb := scan_fuel_ge b.2.1 b.1 b.2.2 (b.2.1.length + 2) (Nat.le_refl _) (a.2.1.length + 2)
+  rw [← ea, ← eb, Nat.add_comm (b.2.1.length + 2)]
+  exact scan_sim_eq C _ a b h
+
+end sim11
+
+/-! ## §4 the token loop -/
+
+theorem rawMeasure_next_le (ch : Int) (rest : List Rune) (p : PState) :
+    rawMeasure (next rest p) ≤ rawMeasure (ch, rest, p) := by
+  cases rest with
+  | nil =>
+    have e : next [] p = (EOF, [], (next [] p).2.2) := rfl
+    rw [e]; simp [rawMeasure]
+  | cons x xs =>
+    rw [next_cons_eq]
+    simp only [rawMeasure, List.length_cons]
+    split <;> split <;> omega
+
+/-- a `Scan` that yields a token (without error) strictly decreases the measure
+    "unread runes + 1 if the look-ahead is not the end of the input" -/
+theorem scan_measure (f : Nat) (rest : List Rune) (ch : Int) (p : PState)
+    (h : (scan f rest ch p).1 ≠ none) :
+    (scan f rest ch p).2.2.2.errs ≠ 0 ∨ rawMeasure (scan f rest ch p).2 < rawMeasure (ch, rest, p) := by
+  have hP : SRel (fun a b : St => (a.2.2.errs ≠ 0 ∨ rawMeasure a < rawMeasure (ch, rest, p)) →
+      (b.2.2.errs ≠ 0 ∨ rawMeasure b < rawMeasure (ch, rest, p))) :=
+    { refl := fun _ => id
+      trans := fun h1 h2 h => h2 (h1 h)
+      next := fun c r q h => by
+        rcases h with h | h
+        · exact Or.inl (next_errs_ne r q h)
+        · exact Or.inr (Nat.lt_of_le_of_lt (rawMeasure_next_le c r q) h)
+      err := fun _ _ _ q _ => Or.inl (err_errs_ne q) }
+  have hQ : SRel (fun a b : St => (a.2.2.errs ≠ 0 ∨ rawMeasure a ≤ rawMeasure (ch, rest, p)) →
+      (b.2.2.errs ≠ 0 ∨ rawMeasure b ≤ rawMeasure (ch, rest, p))) :=
+    { refl := fun _ => id
+      trans := fun h1 h2 h => h2 (h1 h)
+      next := fun c r q h => by
+        rcases h with h | h
+        · exact Or.inl (next_errs_ne r q h)
+        · exact Or.inr (Nat.le_trans (rawMeasure_next_le c r q) h)
+      err := fun _ _ _ q _ => Or.inl (err_errs_ne q) }
+  refine scan_pop hP hQ ?_ f rest ch p (Or.inr (Nat.le_refl _)) h
+  intro c r q hc hq
+  rcases hq with hq | hq
+  · exact Or.inl (next_errs_ne r q hq)
+  · exact Or.inr (Nat.lt_of_lt_of_le (rawMeasure_next (c, r, q) hc) hq)
+
+/-- the token `tokLoop` records: kind, text, and `Scanner.Pos()` right behind it -/
+def tokOf (k : Kind) (text : List Nat) (p' : PState) : Token :=
+  { kind := k, text := text, line := (posOf p').1, column := (posOf p').2.1, offset := (posOf p').2.2 }
+
+theorem tokLoop_succ (fuel : Nat) (rest : List Rune) (ch : Int) (p : PState) (acc : List Token) :
+    tokLoop (fuel + 1) rest ch p acc =
+      match scan (rest.length + 2) rest ch p with
+      | (none, _) => .ok acc.reverse
+      | (some (k, text), s') =>
+        if s'.2.2.errs ≠ 0 then .error (posOf s'.2.2).1 ((posOf s'.2.2).2.1 - 1)
+        else tokLoop fuel s'.2.1 s'.1 s'.2.2 (tokOf k text s'.2.2 :: acc) := by
+  rw [tokLoop]
+  generalize scan (rest.length + 2) rest ch p = x
+  obtain ⟨o, c', r', p'⟩ := x
+  cases o with
+  | none => rfl
+  | some kt => obtain ⟨k, text⟩ := kt; rfl
+
+/-- with more fuel than the measure of the state, the token loop does not depend on its fuel -/
+theorem tokLoop_fuel : ∀ fuel rest ch p acc, rawMeasure (ch, rest, p) < fuel →
+    tokLoop (fuel + 1) rest ch p acc = tokLoop fuel rest ch p acc := by
+  intro fuel
+  induction fuel with
+  | zero => intro rest ch p acc h; omega
+  | succ fuel ih =>
+    intro rest ch p acc h
+    rw [tokLoop_succ (fuel + 1), tokLoop_succ fuel]
+    have hm := scan_measure (rest.length + 2) rest ch p
+    generalize scan (rest.length + 2) rest ch p = x at hm ⊢
+    obtain ⟨o, c', r', q'⟩ := x
+    cases o with
+    | none => rfl
+    | some kt =>
+      obtain ⟨k, text⟩ := kt
+      dsimp only at hm ⊢
+      by_cases he : q'.errs ≠ 0
+      · rw [if_pos he, if_pos he]
+      · rw [if_neg he, if_neg he]
+        rcases hm (by simp) with h1 | h1
+        · exact absurd h1 he
+        · exact ih _ _ _ _ (by omega)
+
+theorem tokLoop_fuel_ge (rest : List Rune) (ch : Int) (p : PState) (acc : List Token) (f : Nat)
+    (h : rawMeasure (ch, rest, p) < f) : ∀ k, tokLoop (f + k) rest ch p acc = tokLoop f rest ch p acc := by
+  intro k
+  induction k with
+  | zero => rfl
+  | succ k ih => rw [← Nat.add_assoc, tokLoop_fuel (f + k) rest ch p acc (by omega), ih]
+
+/-- the token loop goes from one state to another, recording these tokens (none of them with an error) -/
+inductive Steps : St → List Token → St → Prop
+  | refl (s : St) : Steps s [] s
+  | step {s s' s'' : St} {k : Kind} {text : List Nat} {toks : List Token} :
+      scan (s.2.1.length + 2) s.2.1 s.1 s.2.2 = (some (k, text), s') → s'.2.2.errs = 0 → Steps s' toks s'' →
+      Steps s (tokOf k text s'.2.2 :: toks) s''
+
+theorem tokLoop_steps {s s' : St} {ts : List Token} (h : Steps s ts s') : ∀ (F : Nat) (acc : List Token),
+    rawMeasure s < F →
+      tokLoop F s.2.1 s.1 s.2.2 acc = tokLoop F s'.2.1 s'.1 s'.2.2 (ts.reverse ++ acc) ∧ rawMeasure s' < F := by
+  induction h with
+  | refl s => intro F acc hF; exact ⟨rfl, hF⟩
+  | @step s s1 s2 k text toks hs he _ ih =>
+    intro F acc hF
+    obtain ⟨c, r, q⟩ := s
+    obtain ⟨c1, r1, q1⟩ := s1
+    dsimp only at hs he hF ih ⊢
+    have hm := scan_measure (r.length + 2) r c q (by rw [hs]; simp)
+    rw [hs] at hm
+    dsimp only at hm
+    have hm1 : rawMeasure (c1, r1, q1) < rawMeasure (c, r, q) := by
+      rcases hm with h1 | h1
+      · exact absurd he h1
+      · exact h1
+    cases F with
+    | zero => omega
+    | succ F =>
+      rw [tokLoop_succ, hs]
+      dsimp only
+      rw [if_neg (by rw [he]; simp), ← tokLoop_fuel F _ _ _ _ (by omega)]
+      obtain ⟨e, hlt⟩ := ih (F + 1) (tokOf k text q1 :: acc) (by omega)
+      rw [e]
+      refine ⟨?_, hlt⟩
+      simp
+
+theorem steps_len {s s' : St} {ts : List Token} (h : Steps s ts s') : s'.2.1.length ≤ s.2.1.length := by
+  induction h with
+  | refl s => exact Nat.le_refl _
+  | @step s s1 s2 k text toks hs _ _ ih =>
+    have := scan_s len_srel (s.2.1.length + 2) s.2.1 s.1 s.2.2
+    rw [hs] at this
+    exact Nat.le_trans ih this
+
+theorem steps_measure {s s' : St} {ts : List Token} (h : Steps s ts s') :
+    rawMeasure s' ≤ rawMeasure s ∧ (ts ≠ [] → rawMeasure s' < rawMeasure s) := by
+  induction h with
+  | refl s => exact ⟨Nat.le_refl _, fun h => absurd rfl h⟩
+  | @step s s1 s2 k text toks hs he _ ih =>
+    have hm := scan_measure (s.2.1.length + 2) s.2.1 s.1 s.2.2 (by rw [hs]; simp)
+    rw [hs] at hm
+    have hm1 : rawMeasure s1 < rawMeasure s := by
+      rcases hm with h1 | h1
+      · exact absurd he h1
+      · exact h1
+    exact ⟨by omega, fun _ => by omega⟩
+
+theorem steps_eof {p : PState} {s' : St} {ts : List Token} (h : Steps (EOF, [], p) ts s') :
+    ts = [] ∧ s' = (EOF, [], p) := by
+  cases h with
+  | refl => exact ⟨rfl, rfl⟩
+  | step hs _ _ => dsimp only at hs; rw [scan_at_eof] at hs; cases hs
+
+/-- two lists of the same length, related element by element -/
+inductive AllRel {α β : Type} (T : α → β → Prop) : List α → List β → Prop
+  | nil : AllRel T [] []
+  | cons {a b as bs} : T a b → AllRel T as bs → AllRel T (a :: as) (b :: bs)
+
+section phase1
+variable {xA xB : List Rune} {PR PRat : PState → PState → Prop} (C : Ctx xA xB PR PRat)
+include C
+
+/-- **Phase 1**: while run A's token loop goes from a state inside the common part to the state in which
+    it has just read the first rune of `xA`, run B's token loop (if it ends without error) records related
+    tokens and arrives in the state in which it has just read the first rune of `xB`. -/
+theorem phase1 (hns : ¬ Same xA xB) (T : Token → Token → Prop)
+    (hT1 : ∀ k text p q, PR p q → T (tokOf k text p) (tokOf k text q))
+    (hT2 : ∀ k text p q, PRat p q → T (tokOf k text p) (tokOf k text q))
+    {a fin : St} {ts : List Token} (hst : Steps a ts fin) :
+    ∀ b : St, Live xA xB PR PRat a b → fin.1 = hdCh xA → fin.2.1 = xA.tail →
+      ∀ (F : Nat) (acc tB : List Token), rawMeasure b < F → tokLoop F b.2.1 b.1 b.2.2 acc = .ok tB →
+        ∃ ts' finB, tokLoop F finB.2.1 finB.1 finB.2.2 (ts'.reverse ++ acc) = .ok tB ∧ rawMeasure finB < F ∧
+          At xA xB PRat fin finB ∧ AllRel T ts ts' := by
+  induction hst with
+  | refl a =>
+    intro b hl h1 h2 F acc tB hF hB
+    rcases hl with hb | ha
+    · exfalso
+      obtain ⟨_, _, hneg, u, hu, _⟩ := hb
+      by_cases hx : xA = []
+      · subst hx
+        exact hns (hneg (by rw [h1]; decide))
+      · rw [h2] at hu
+        have := congrArg List.length hu
+        simp only [List.length_append, List.length_tail] at this
+        have : 0 < xA.length := List.length_pos_iff.mpr hx
+        omega
+    · exact ⟨[], b, hB, hF, ha, AllRel.nil⟩
+  | @step s s1 s2 k text toks hs he hrest ih =>
+    intro b hl h1 h2 F acc tB hF hB
+    rcases hl with hb | ha
+    · have hso := scan_sim C hb
+      rw [hs] at hso
+      rcases hso with ⟨_, hno | hd⟩ | ⟨heq, hl1⟩
+      · cases hno
+      · exfalso
+        obtain ⟨_, hd | hd | ⟨hx, hr, hc⟩⟩ := hd
+        · exact hd he
+        · have := steps_len hrest
+          rw [h2] at this
+          dsimp only at hd; omega
+        · obtain ⟨c1, r1, q1⟩ := s1
+          dsimp only at hr hc
+          subst hr hc
+          obtain ⟨_, e⟩ := steps_eof hrest
+          rw [e] at h1
+          have := hdCh_nonneg hx
+          have h1' : (-1 : Int) = hdCh xA := h1
+          omega
+      · cases F with
+        | zero => omega
+        | succ F =>
+          rw [tokLoop_succ] at hB
+          have hmB := scan_measure (b.2.1.length + 2) b.2.1 b.1 b.2.2
+          generalize scan (b.2.1.length + 2) b.2.1 b.1 b.2.2 = y at heq hl1 hB hmB
+          obtain ⟨ob, cB, rB, qB⟩ := y
+          dsimp only at heq hl1 hmB
+          subst heq
+          dsimp only at hB
+          by_cases heB : qB.errs ≠ 0
+          · rw [if_pos heB] at hB; cases hB
+          · rw [if_neg heB] at hB
+            have hmB1 : rawMeasure (cB, rB, qB) < rawMeasure b := by
+              rcases hmB (by simp) with h | h
+              · exact absurd h heB
+              · exact h
+            rw [← tokLoop_fuel F _ _ _ _ (by omega)] at hB
+            obtain ⟨ts', finB, e1, e2, e3, e4⟩ :=
+              ih (cB, rB, qB) hl1 h1 h2 (F + 1) (tokOf k text qB :: acc) tB (by omega) hB
+            refine ⟨tokOf k text qB :: ts', finB, ?_, e2, e3, AllRel.cons ?_ e4⟩
+            · simpa using e1
+            · rcases hl1 with hb1 | ha1
+              · exact hT1 k text _ _ hb1.2.1
+              · exact hT2 k text _ _ ha1.2.2.2.2.2
+    · exfalso
+      have := (steps_measure (Steps.step hs he hrest)).2 (by simp)
+      obtain ⟨_, e1, e2, _⟩ := ha
+      obtain ⟨c, r, q⟩ := s
+      obtain ⟨c2, r2, q2⟩ := s2
+      dsimp only at e1 e2 h1 h2
+      subst e1 e2 h1 h2
+      simp [rawMeasure] at this
+
+end phase1
+
+/-- **Phase 3**: two token loops over the same unread runes with the same look-ahead, bookkeeping related by
+    `PR`: if both end without error they record related tokens -/
+theorem phase3 {PR PRat : PState → PState → Prop} (C : Ctx [] [] PR PRat) (T : Token → Token → Prop)
+    (hT : ∀ k text p q, PR p q → T (tokOf k text p) (tokOf k text q)) :
+    ∀ (F : Nat) (a b : St) (accA accB tA tB : List Token), Before [] [] PR a b →
+      tokLoop F a.2.1 a.1 a.2.2 accA = .ok tA → tokLoop F b.2.1 b.1 b.2.2 accB = .ok tB →
+      ∃ nA nB, tA = accA.reverse ++ nA ∧ tB = accB.reverse ++ nB ∧ AllRel T nA nB := by
+  intro F
+  induction F with
+  | zero =>
+    intro a b accA accB tA tB _ hA hB
+    simp only [tokLoop, TokResult.ok.injEq] at hA hB
+    exact ⟨[], [], by simp [hA], by simp [hB], AllRel.nil⟩
+  | succ F ih =>
+    intro a b accA accB tA tB h hA hB
+    rw [tokLoop_succ] at hA hB
+    have hso := scan_sim C h
+    generalize scan (a.2.1.length + 2) a.2.1 a.1 a.2.2 = x at hso hA
+    generalize scan (b.2.1.length + 2) b.2.1 b.1 b.2.2 = y at hso hB
+    obtain ⟨oa, sa⟩ := x
+    obtain ⟨ob, sb⟩ := y
+    rcases hso with ⟨hns, _⟩ | ⟨heq, hl⟩
+    · exact absurd ⟨rfl, rfl⟩ hns
+    · dsimp only at heq hl
+      subst heq
+      have hb1 : Before [] [] PR sa sb := by
+        rcases hl with hb | ha
+        · exact hb
+        · exact absurd ⟨rfl, rfl⟩ ha.1
+      cases oa with
+      | none =>
+        simp only [TokResult.ok.injEq] at hA hB
+        exact ⟨[], [], by simp [hA], by simp [hB], AllRel.nil⟩
+      | some kt =>
+        obtain ⟨k, text⟩ := kt
+        dsimp only at hA hB
+        by_cases heA : sa.2.2.errs ≠ 0
+        · rw [if_pos heA] at hA; cases hA
+        rw [if_neg heA] at hA
+        by_cases heB : sb.2.2.errs ≠ 0
+        · rw [if_pos heB] at hB; cases hB
+        rw [if_neg heB] at hB
+        obtain ⟨nA, nB, e1, e2, e3⟩ := ih sa sb _ _ tA tB hb1 hA hB
+        refine ⟨tokOf k text sa.2.2 :: nA, tokOf k text sb.2.2 :: nB, ?_, ?_, AllRel.cons (hT k text _ _ hb1.2.1) e3⟩
+        · rw [e1]; simp
+        · rw [e2]; simp
+
+/-! ## §5 gaps -/
+
+/-- the state of the scanner right after it has read the first rune of `x` with bookkeeping `p0` -/
+def atSt (x : List Rune) (p0 : PState) : St := (hdCh x, x.tail, (next x p0).2.2)
+
+theorem next_eq_atSt (x : List Rune) (p0 : PState) : next x p0 = atSt x p0 := next_eq_hd x p0
+
+/-- entering a gap: the scanner that has just read the first rune of a gap is the scanner in front of the gap
+    with a white-space look-ahead -/
+theorem scan_enter_gap {g : List Rune} (hg : Gap g) (hne : g ≠ []) (post : List Rune) (p0 : PState) (n : Nat) :
+    scan (n + 1) (atSt (g ++ post) p0).2.1 (atSt (g ++ post) p0).1 (atSt (g ++ post) p0).2.2 =
+      scan (n + 1) (g ++ post) 32 p0 := by
+  cases hg with
+  | nil => exact absurd rfl hne
+  | @white r g' hr _ =>
+    have e := scan_white n [r] (g' ++ post) 32 p0 (by decide) (by simpa using hr)
+    simp only [List.cons_append, List.nil_append] at e ⊢
+    rw [e]
+    unfold atSt
+    rw [next_cons_eq]
+    rfl
+  | @comment s body nl g' hs hb hnl _ =>
+    have e := scan_white_semi n s ((body ++ nl :: g') ++ post) 32 p0 (by decide) hs
+    simp only [List.cons_append] at e ⊢
+    rw [e]
+    unfold atSt
+    rw [next_cons_eq]
+    have : Int.ofNat s.ch = 59 := by rw [hs]; rfl
+    simp only [hdCh, List.tail_cons, this]
+
+/-- leaving a gap: with a white-space look-ahead, `Scan` first reads the next rune -/
+theorem scan_leave_gap (f : Nat) (post : List Rune) (w : Int) (p : PState) (hw : isWhite w = true) :
+    scan (f + 1) post w p = scan (f + 1) (atSt post p).2.1 (atSt post p).1 (atSt post p).2.2 := by
+  cases post with
+  | nil =>
+    rw [scan_succ, scan_succ]
+    have e1 : skipWhite [] w p = next [] p := by rw [skipWhite, if_pos hw]
+    have e2 : skipWhite (atSt [] p).2.1 (atSt [] p).1 (atSt [] p).2.2 = next [] p := by
+      unfold atSt; exact skipWhite_stop _ _ _ (show isWhite EOF = false by decide)
+    rw [e1, e2]
+  | cons r rs =>
+    have ea : atSt (r :: rs) p = (Int.ofNat r.ch, rs, step r p) := by unfold atSt; rw [next_cons_eq]; rfl
+    rw [ea, scan_succ, scan_succ, skipWhite_cons _ _ _ _ hw]
+
+/-- across a gap: `Scan` from the state that has just read the first rune of the gap is `Scan` from the state
+    that has just read the first rune behind the gap, the bookkeeping having been fed the gap -/
+theorem scan_across_gap {g : List Rune} (hg : Gap g) (hne : g ≠ []) (post : List Rune) (p0 : PState) :
+    scan ((atSt (g ++ post) p0).2.1.length + 2) (atSt (g ++ post) p0).2.1 (atSt (g ++ post) p0).1
+        (atSt (g ++ post) p0).2.2 =
+      scan ((atSt post (feed g p0)).2.1.length + 2) (atSt post (feed g p0)).2.1 (atSt post (feed g p0)).1
+        (atSt post (feed g p0)).2.2 := by
+  obtain ⟨k, hk, hgap⟩ := scan_gap hg
+  obtain ⟨hw, e⟩ := hgap (g.length + post.length + 1) post 32 p0 (by decide)
+  have l1 : (atSt (g ++ post) p0).2.1.length + 2 ≤ g.length + post.length + 1 + 1 + k := by
+    unfold atSt; simp only [List.length_tail, List.length_append]; omega
+  have l2 : (atSt post (feed g p0)).2.1.length + 2 ≤ g.length + post.length + 1 + 1 := by
+    unfold atSt; simp only [List.length_tail]; omega
+  obtain ⟨j1, hj1⟩ := Nat.exists_eq_add_of_le l1
+  obtain ⟨j2, hj2⟩ := Nat.exists_eq_add_of_le l2
+  have e0 : g.length + post.length + 1 + 1 + k = (g.length + post.length + 1 + k) + 1 := by omega
+  rw [← scan_fuel_ge _ _ _ _ (Nat.le_refl _) j1, ← hj1, e0, scan_enter_gap hg hne, ← e0, e,
+    scan_leave_gap _ _ _ _ hw, hj2, scan_fuel_ge _ _ _ _ (Nat.le_refl _) j2]
+
+theorem tokLoop_across_gap {g : List Rune} (hg : Gap g) (hne : g ≠ []) (post : List Rune) (p0 : PState)
+    (F : Nat) (acc : List Token) :
+    tokLoop (F + 1) (atSt (g ++ post) p0).2.1 (atSt (g ++ post) p0).1 (atSt (g ++ post) p0).2.2 acc =
+      tokLoop (F + 1) (atSt post (feed g p0)).2.1 (atSt post (feed g p0)).1 (atSt post (feed g p0)).2.2 acc := by
+  rw [tokLoop_succ, tokLoop_succ, scan_across_gap hg hne]
+
+/-! ## §6 the two contexts and the theorems -/
+
+theorem next_err_comm (x : List Rune) (p : PState) : Scan.err (next x p).2.2 = (next x (Scan.err p)).2.2 := by
+  cases x with
+  | nil => rfl
+  | cons r rs =>
+    unfold next Scan.err
+    simp only []
+    split
+    · rfl
+    · split
+      · rfl
+      · split <;> rfl
+
+theorem step_line_ge (r : Rune) (p : PState) : p.line ≤ (step r p).line := by
+  rw [step_line]; omega
+
+/-- the bookkeeping of the two runs while they read the common part: identical (and on a line ≥ 1) -/
+def PR1 (p q : PState) : Prop := p = q ∧ 1 ≤ p.line
+
+/-- … and right after each has read its first different rune -/
+def PRat1 (xA xB : List Rune) (pA pB : PState) : Prop :=
+  ∃ p0, 1 ≤ p0.line ∧ pA = (next xA p0).2.2 ∧ pB = (next xB p0).2.2
+
+theorem ctx1 (xA xB : List Rune) (hstop : StopCh (hdCh xB)) : Ctx xA xB PR1 (PRat1 xA xB) where
+  stopB := hstop
+  pr_step r p q h := by
+    obtain ⟨rfl, h1⟩ := h
+    exact ⟨rfl, Nat.le_trans h1 (step_line_ge r p)⟩
+  pr_err p q h := by obtain ⟨rfl, h1⟩ := h; exact ⟨rfl, h1⟩
+  pr_eof _ _ p q h := by obtain ⟨rfl, h1⟩ := h; exact ⟨rfl, h1⟩
+  cross p q h := by obtain ⟨rfl, h1⟩ := h; exact ⟨p, h1, rfl, rfl⟩
+  at_err p q h := by
+    obtain ⟨p0, h1, rfl, rfl⟩ := h
+    exact ⟨Scan.err p0, h1, next_err_comm _ _, next_err_comm _ _⟩
+
+/-- the first rune of a non-empty gap is a stop character -/
+theorem gap_hd_stop {g : List Rune} (hg : Gap g) (hne : g ≠ []) (post : List Rune) : StopCh (hdCh (g ++ post)) := by
+  cases hg with
+  | nil => exact absurd rfl hne
+  | @white r g' hr _ =>
+    have h : isWhite (Int.ofNat r.ch) = true := hr
+    show StopCh (Int.ofNat r.ch)
+    generalize Int.ofNat r.ch = c at h
+    unfold isWhite at h
+    simp only [Bool.or_eq_true, decide_eq_true_eq] at h
+    unfold StopCh
+    omega
+  | @comment s body nl g' hs _ _ _ =>
+    show StopCh (Int.ofNat s.ch)
+    rw [hs]; exact Or.inr (Or.inr (Or.inr (Or.inr (Or.inr rfl))))
+
+/-- the line `Scanner.Pos()` reports right after a rune has been read is the line it was read on -/
+theorem effLine_step (x : Rune) (p0 : PState) : effLine (step x p0) = p0.line := by
+  rw [effLine_eq]
+  rcases step_cases x p0 with ⟨h1, h2⟩ | ⟨h1, h2, h3⟩
+  · rw [if_pos (by omega), h1]
+  · rw [if_neg (by omega), if_pos (by omega), h1]; omega
+
+/-- the bookkeeping of two runs that read the same runes after gaps with `nA` resp. `nB` newlines: lines
+    shifted, the same "just read a newline" status -/
+def Sh (nA nB : Nat) (p q : PState) : Prop :=
+  q.line + nA = p.line + nB ∧ q.lastCharLen = p.lastCharLen ∧ 1 ≤ p.line ∧ 1 ≤ q.line ∧
+    ((0 < p.column ∧ 0 < q.column) ∨ (p.column = 0 ∧ q.column = 0 ∧ 0 < p.lastLineLen ∧ 0 < q.lastLineLen))
+
+theorem step_fields (r : Rune) (p : PState) :
+    (step r p).lastCharLen = r.width ∧
+    ((isNl r = true ∧ (step r p).line = p.line + 1 ∧ (step r p).column = 0 ∧ (step r p).lastLineLen = p.column + 1) ∨
+     (isNl r = false ∧ (step r p).line = p.line ∧ (step r p).column = p.column + 1 ∧
+        (step r p).lastLineLen = p.lastLineLen)) := by
+  unfold step next isNl
+  simp only []
+  split
+  · rename_i h; simp [h]
+  · rename_i hb
+    split
+    · rename_i h; simp [h, hb]
+    · split
+      · rename_i h; simp [h, hb]
+      · rename_i h0 h; simp [h, hb]
+
+theorem sh_step (nA nB : Nat) (r : Rune) (p q : PState) (h : Sh nA nB p q) : Sh nA nB (step r p) (step r q) := by
+  obtain ⟨h1, h2, h3, h4, h5⟩ := h
+  obtain ⟨wp, fp⟩ := step_fields r p
+  obtain ⟨wq, fq⟩ := step_fields r q
+  rcases fp with ⟨n1, a1, a2, a3⟩ | ⟨n1, a1, a2, a3⟩ <;> rcases fq with ⟨n2, b1, b2, b3⟩ | ⟨n2, b1, b2, b3⟩
+  · exact ⟨by omega, by rw [wp, wq], by omega, by omega, Or.inr ⟨a2, b2, by omega, by omega⟩⟩
+  · rw [n1] at n2; cases n2
+  · rw [n1] at n2; cases n2
+  · exact ⟨by omega, by rw [wp, wq], by omega, by omega, Or.inl ⟨by omega, by omega⟩⟩
+
+theorem sh_eof (nA nB : Nat) (p q : PState) (h : Sh nA nB p q) : Sh nA nB (next [] p).2.2 (next [] q).2.2 := by
+  obtain ⟨h1, h2, h3, h4, h5⟩ := h
+  have ep : (next [] p).2.2 = { p with column := if p.lastCharLen > 0 then p.column + 1 else p.column, lastCharLen := 0 } := rfl
+  have eq : (next [] q).2.2 = { q with column := if q.lastCharLen > 0 then q.column + 1 else q.column, lastCharLen := 0 } := rfl
+  rw [ep, eq]
+  refine ⟨h1, rfl, h3, h4, ?_⟩
+  dsimp only
+  rw [h2]
+  split
+  · exact Or.inl ⟨by omega, by omega⟩
+  · exact h5
+
+theorem ctxSh (nA nB : Nat) : Ctx [] [] (Sh nA nB) (Sh nA nB) where
+  stopB := stop_hd_nil
+  pr_step r p q h := sh_step nA nB r p q h
+  pr_err _ _ h := h
+  pr_eof _ _ p q h := sh_eof nA nB p q h
+  cross p q h := sh_eof nA nB p q h
+  at_err _ _ h := h
+
+/-- under `Sh` the reported lines are shifted -/
+theorem sh_effLine (nA nB : Nat) (p q : PState) (h : Sh nA nB p q) : effLine q + nA = effLine p + nB := by
+  obtain ⟨h1, h2, h3, h4, h5⟩ := h
+  rw [effLine_eq, effLine_eq]
+  rcases h5 with ⟨a, b⟩ | ⟨a, b, c, d⟩
+  · have a' : p.column > 0 := a
+    have b' : q.column > 0 := b
+    rw [if_pos a', if_pos b']; exact h1
+  · have a' : ¬ p.column > 0 := by omega
+    have b' : ¬ q.column > 0 := by omega
+    have c' : p.lastLineLen > 0 := c
+    have d' : q.lastLineLen > 0 := d
+    rw [if_neg b', if_pos d', if_neg a', if_pos c']; omega
+
+/-- the bookkeeping after the first rune behind two gaps read from the same bookkeeping -/
+theorem sh_after_gaps (g g' : List Rune) (r : Rune) (p0 : PState) (h0 : 1 ≤ p0.line) :
+    Sh (newlines g) (newlines g') (step r (feed g p0)) (step r (feed g' p0)) := by
+  have l1 := feed_line g p0
+  have l2 := feed_line g' p0
+  obtain ⟨wp, fp⟩ := step_fields r (feed g p0)
+  obtain ⟨wq, fq⟩ := step_fields r (feed g' p0)
+  rcases fp with ⟨n1, a1, a2, a3⟩ | ⟨n1, a1, a2, a3⟩ <;> rcases fq with ⟨n2, b1, b2, b3⟩ | ⟨n2, b1, b2, b3⟩
+  · exact ⟨by omega, by rw [wp, wq], by omega, by omega, Or.inr ⟨a2, b2, by omega, by omega⟩⟩
+  · rw [n1] at n2; cases n2
+  · rw [n1] at n2; cases n2
+  · exact ⟨by omega, by rw [wp, wq], by omega, by omega, Or.inl ⟨by omega, by omega⟩⟩
+
+theorem start_measure (runes : List Rune) : rawMeasure (start runes) < runes.length + 2 := by
+  unfold start
+  have h1 := rawMeasure_next_le 0 runes {}
+  have h0 : rawMeasure ((0 : Int), runes, ({} : PState)) = runes.length + 1 := by simp [rawMeasure]
+  generalize next runes {} = x at h1 ⊢
+  obtain ⟨c, r, q⟩ := x
+  dsimp only
+  split
+  · have := rawMeasure_next_le c r q; omega
+  · omega
+
+/-- the start states of the two token loops are related -/
+theorem start_live {xA xB : List Rune} (C : Ctx xA xB PR1 (PRat1 xA xB)) (pre : List Rune)
+    (hbom : pre ≠ [] ∨ hdCh xA ≠ 0xFEFF) :
+    Live xA xB PR1 (PRat1 xA xB) (start (pre ++ xA)) (start (pre ++ xB)) := by
+  cases pre with
+  | cons r0 pre' =>
+    have hb1 : Before xA xB PR1 (Int.ofNat r0.ch, pre' ++ xA, step r0 {}) (Int.ofNat r0.ch, pre' ++ xB, step r0 {}) := by
+      refine ⟨rfl, ⟨rfl, Nat.le_trans (Nat.le_refl 1) (step_line_ge r0 {})⟩, fun h => ?_, pre', rfl, rfl⟩
+      have : (0 : Int) ≤ Int.ofNat r0.ch := Int.natCast_nonneg _
+      dsimp only at h; omega
+    unfold start
+    simp only [List.cons_append, next_cons_eq]
+    split
+    · exact before_next C hb1
+    · exact Or.inl hb1
+  | nil =>
+    have hb0 : Before xA xB PR1 ((0 : Int), [] ++ xA, ({} : PState)) ((0 : Int), [] ++ xB, ({} : PState)) :=
+      ⟨rfl, ⟨rfl, Nat.le_refl _⟩, fun h => absurd (show (0 : Int) < 0 from h) (by decide), [], rfl, rfl⟩
+    have hl1 := before_next C hb0
+    dsimp only at hl1
+    unfold start
+    generalize next ([] ++ xA) {} = x at hl1 ⊢
+    generalize next ([] ++ xB) {} = y at hl1 ⊢
+    obtain ⟨c, r, q⟩ := x
+    obtain ⟨c', r', q'⟩ := y
+    dsimp only
+    rcases live_test' C hl1 (fun c => decide (c = 0xFEFF)) (eq_stop_false 0xFEFF (by decide)) with
+      ⟨h1, h2⟩ | ⟨h1, h2, hbef⟩ | ⟨h1, h2, hat, hx⟩
+    · rw [if_neg (of_decide_eq_false h1), if_neg (of_decide_eq_false h2)]; exact hl1
+    · rw [if_pos (of_decide_eq_true h1), if_pos (of_decide_eq_true h2)]; exact before_next C hbef
+    · exfalso
+      have e1 : c = 0xFEFF := of_decide_eq_true h1
+      obtain ⟨_, e2, _⟩ := hat
+      dsimp only at e2
+      rcases hbom with hp | hb
+      · exact hp rfl
+      · exact hb (by rw [← e2, e1])
+
+theorem tokenizeRunes_eq (runes : List Rune) :
+    tokenizeRunes runes =
+      tokLoop (runes.length + 2) (start runes).2.1 (start runes).1 (start runes).2.2 [] := rfl
+
+/-- tokens recorded before the point where the texts differ: same kind and text, and the same line (when the
+    first text does not end at that point) -/
+def TokSame (xA : List Rune) (t t' : Token) : Prop :=
+  t.kind = t'.kind ∧ t.text = t'.text ∧ (xA ≠ [] → t.line = t'.line)
+
+/-- tokens recorded behind gaps with `nA` resp. `nB` newlines: same kind and text, lines shifted -/
+def TokSh (nA nB : Nat) (t t' : Token) : Prop :=
+  t.kind = t'.kind ∧ t.text = t'.text ∧ t'.line + nA = t.line + nB
+
+theorem atSt_measure (x : List Rune) (p : PState) : rawMeasure (atSt x p) ≤ x.length := by
+  cases x with
+  | nil => simp [atSt, rawMeasure, hdCh]
+  | cons r rs =>
+    have hnn : ¬ Int.ofNat r.ch < 0 := by
+      have : (0 : Int) ≤ Int.ofNat r.ch := Int.natCast_nonneg _
+      omega
+    have e : atSt (r :: rs) p = (Int.ofNat r.ch, rs, (next (r :: rs) p).2.2) := rfl
+    rw [e]
+    unfold rawMeasure
+    dsimp only
+    rw [if_neg hnn]
+    simp
+
+/-- the token loop started right behind the last rune of the text -/
+theorem tokLoop_at_end (F : Nat) (p : PState) (acc : List Token) :
+    tokLoop (F + 1) (atSt [] p).2.1 (atSt [] p).1 (atSt [] p).2.2 acc = .ok acc.reverse := by
+  rw [tokLoop_succ]
+  have e : scan ((atSt [] p).2.1.length + 2) (atSt [] p).2.1 (atSt [] p).1 (atSt [] p).2.2 =
+      (none, (EOF, [], (atSt [] p).2.2)) := scan_at_eof _ _
+  rw [e]
+
+/-- **Main theorem.**  Text A = `pre ++ g ++ post`, text B = `pre ++ g' ++ post` with gaps `g` (possibly empty)
+    and `g'` (not empty); the token loop on A passes through the state in which it has just read the first rune
+    behind `pre` (so `pre` ends where a token ends, or is empty).  If both texts tokenize without error, the
+    tokens are pairwise related: those recorded up to that point have the same kind, text (and line), those
+    behind have the same kind and text, their lines shifted by the newlines of the gaps. -/
+theorem layout_main (pre g g' post : List Rune) (hg : Gap g) (hg' : Gap g') (hne' : g' ≠ [])
+    (hbom : pre ≠ [] ∨ hdCh (g ++ post) ≠ 0xFEFF) {tsPre : List Token} {fin : St}
+    (H : Steps (start (pre ++ (g ++ post))) tsPre fin) (hf1 : fin.1 = hdCh (g ++ post))
+    (hf2 : fin.2.1 = (g ++ post).tail) {tA tB : List Token}
+    (hA : tokenizeRunes (pre ++ (g ++ post)) = .ok tA) (hB : tokenizeRunes (pre ++ (g' ++ post)) = .ok tB) :
+    ∃ tsPre' nA nB, tA = tsPre ++ nA ∧ tB = tsPre' ++ nB ∧ AllRel (TokSame (g ++ post)) tsPre tsPre' ∧
+      AllRel (TokSh (newlines g) (newlines g')) nA nB := by
+  have hxB : g' ++ post ≠ [] := by simp [hne']
+  have hns : ¬ Same (g ++ post) (g' ++ post) := fun h => hxB h.2
+  have C := ctx1 (g ++ post) (g' ++ post) (gap_hd_stop hg' hne' post)
+  have hl0 := start_live C pre hbom
+  rw [tokenizeRunes_eq] at hA hB
+  -- run A up to the point
+  obtain ⟨eA, mA⟩ := tokLoop_steps H ((pre ++ (g ++ post)).length + 2) [] (start_measure _)
+  rw [eA] at hA
+  -- run B up to the point
+  have hT1 : ∀ k text p q, PR1 p q → TokSame (g ++ post) (tokOf k text p) (tokOf k text q) := by
+    intro k text p q h; obtain ⟨rfl, _⟩ := h; exact ⟨rfl, rfl, fun _ => rfl⟩
+  have hT2 : ∀ k text p q, PRat1 (g ++ post) (g' ++ post) p q →
+      TokSame (g ++ post) (tokOf k text p) (tokOf k text q) := by
+    intro k text p q h
+    obtain ⟨p0, _, rfl, rfl⟩ := h
+    refine ⟨rfl, rfl, fun hx => ?_⟩
+    obtain ⟨x, xs, ex⟩ := List.exists_cons_of_ne_nil hx
+    obtain ⟨y, ys, ey⟩ := List.exists_cons_of_ne_nil hxB
+    rw [ex, ey, next_cons_eq, next_cons_eq]
+    show effLine (step x p0) = effLine (step y p0)
+    rw [effLine_step, effLine_step]
+  obtain ⟨tsPre', finB, eB, mB, hat, hrel⟩ :=
+    phase1 C hns (TokSame (g ++ post)) hT1 hT2 H _ hl0 hf1 hf2 _ [] tB (start_measure _) hB
+  refine ⟨tsPre', ?_⟩
+  obtain ⟨_, a1, a2, b1, b2, p0, hp0, epA, epB⟩ := hat
+  have efin : fin = atSt (g ++ post) p0 := by
+    obtain ⟨c, r, q⟩ := fin
+    dsimp only at a1 a2 epA
+    subst a1 a2 epA; rfl
+  have efinB : finB = atSt (g' ++ post) p0 := by
+    obtain ⟨c, r, q⟩ := finB
+    dsimp only at b1 b2 epB
+    subst b1 b2 epB; rfl
+  rw [efin] at hA mA
+  rw [efinB] at eB mB
+  simp only [List.append_nil] at hA eB
+  -- across the gaps
+  have hA2 : tokLoop ((pre ++ (g ++ post)).length + 2) (atSt post (feed g p0)).2.1 (atSt post (feed g p0)).1
+      (atSt post (feed g p0)).2.2 tsPre.reverse = .ok tA := by
+    by_cases hne : g = []
+    · subst hne; exact hA
+    · rw [← tokLoop_across_gap hg hne]; exact hA
+  have hB2 : tokLoop ((pre ++ (g' ++ post)).length + 2) (atSt post (feed g' p0)).2.1 (atSt post (feed g' p0)).1
+      (atSt post (feed g' p0)).2.2 tsPre'.reverse = .ok tB := by
+    rw [← tokLoop_across_gap hg' hne']; exact eB
+  -- behind the gaps
+  cases post with
+  | nil =>
+    rw [tokLoop_at_end] at hA2 hB2
+    simp only [TokResult.ok.injEq, List.reverse_reverse] at hA2 hB2
+    exact ⟨[], [], by simp [hA2], by simp [hB2], hrel, AllRel.nil⟩
+  | cons r rs =>
+    have eaA : atSt (r :: rs) (feed g p0) = (Int.ofNat r.ch, rs, step r (feed g p0)) := by
+      unfold atSt; rw [next_cons_eq]; rfl
+    have eaB : atSt (r :: rs) (feed g' p0) = (Int.ofNat r.ch, rs, step r (feed g' p0)) := by
+      unfold atSt; rw [next_cons_eq]; rfl
+    rw [eaA] at hA2
+    rw [eaB] at hB2
+    dsimp only at hA2 hB2
+    have hbef : Before [] [] (Sh (newlines g) (newlines g')) (Int.ofNat r.ch, rs, step r (feed g p0))
+        (Int.ofNat r.ch, rs, step r (feed g' p0)) :=
+      ⟨rfl, sh_after_gaps g g' r p0 hp0, fun _ => ⟨rfl, rfl⟩, rs, by simp, by simp⟩
+    -- the same fuel for both loops
+    have mA' : rawMeasure (Int.ofNat r.ch, rs, step r (feed g p0)) < (pre ++ (g ++ r :: rs)).length + 2 := by
+      have := atSt_measure (r :: rs) (feed g p0); rw [eaA] at this
+      simp only [List.length_append, List.length_cons] at this ⊢; omega
+    have mB' : rawMeasure (Int.ofNat r.ch, rs, step r (feed g' p0)) < (pre ++ (g' ++ r :: rs)).length + 2 := by
+      have := atSt_measure (r :: rs) (feed g' p0); rw [eaB] at this
+      simp only [List.length_append, List.length_cons] at this ⊢; omega
+    rw [← tokLoop_fuel_ge _ _ _ _ _ mA' ((pre ++ (g' ++ r :: rs)).length + 2)] at hA2
+    rw [← tokLoop_fuel_ge _ _ _ _ _ mB' ((pre ++ (g ++ r :: rs)).length + 2), Nat.add_comm] at hB2
+    have hT3 : ∀ k text p q, Sh (newlines g) (newlines g') p q →
+        TokSh (newlines g) (newlines g') (tokOf k text p) (tokOf k text q) :=
+      fun k text p q h => ⟨rfl, rfl, sh_effLine _ _ p q h⟩
+    obtain ⟨nA, nB, e1, e2, e3⟩ := phase3 (ctxSh _ _) _ hT3 _ _ _ _ _ _ _ hbef hA2 hB2
+    exact ⟨nA, nB, by simpa using e1, by simpa using e2, hrel, e3⟩
+
+/-! ### corollaries -/
+
+theorem allRel_map {α β γ : Type} {T : α → β → Prop} (f : α → γ) (f' : β → γ) (h : ∀ a b, T a b → f a = f' b) :
+    ∀ {l : List α} {l' : List β}, AllRel T l l' → l.map f = l'.map f'
+  | _, _, .nil => rfl
+  | _, _, .cons hab hrest => by
+    simp only [List.map_cons]
+    rw [h _ _ hab, allRel_map f f' h hrest]
+
+theorem allRel_length {α β : Type} {T : α → β → Prop} : ∀ {l : List α} {l' : List β}, AllRel T l l' →
+    l.length = l'.length
+  | _, _, .nil => rfl
+  | _, _, .cons _ hrest => by simp only [List.length_cons]; rw [allRel_length hrest]
+
+/-- a text that does not begin with a byte-order mark: the start state is the state after its first rune -/
+theorem start_atSt (x : List Rune) (h : hdCh x ≠ 0xFEFF) : start x = atSt x {} := by
+  unfold start
+  rw [next_eq_atSt]
+  have h' : ¬ (atSt x {}).1 = 0xFEFF := h
+  show (if (atSt x {}).1 = 0xFEFF then _ else _) = _
+  rw [if_neg h']
+  rfl
+
+/-- **Kinds and texts** (C19): same hypotheses as `layout_main`; the `(kind, text)` lists are equal. -/
+theorem layout_kinds_texts (pre g g' post : List Rune) (hg : Gap g) (hg' : Gap g') (hne' : g' ≠ [])
+    (hbom : pre ≠ [] ∨ hdCh (g ++ post) ≠ 0xFEFF) {tsPre : List Token} {fin : St}
+    (H : Steps (start (pre ++ (g ++ post))) tsPre fin) (hf1 : fin.1 = hdCh (g ++ post))
+    (hf2 : fin.2.1 = (g ++ post).tail) {tA tB : List Token}
+    (hA : tokenizeRunes (pre ++ (g ++ post)) = .ok tA) (hB : tokenizeRunes (pre ++ (g' ++ post)) = .ok tB) :
+    tA.map (fun t => (t.kind, t.text)) = tB.map (fun t => (t.kind, t.text)) := by
+  obtain ⟨tsPre', nA, nB, e1, e2, r1, r2⟩ := layout_main pre g g' post hg hg' hne' hbom H hf1 hf2 hA hB
+  rw [e1, e2, List.map_append, List.map_append,
+    allRel_map _ _ (fun a b (h : TokSame (g ++ post) a b) => by rw [h.1, h.2.1]) r1,
+    allRel_map _ _ (fun a b (h : TokSh (newlines g) (newlines g') a b) => by rw [h.1, h.2.1]) r2]
+
+/-- **A gap in front of the text** (no hypothesis about token boundaries is needed): replacing a leading gap
+    by another one keeps kinds and texts and shifts every line by the difference of the newline counts. -/
+theorem layout_leading_gap (g g' post : List Rune) (hg : Gap g) (hg' : Gap g') (hne : g ≠ []) (hne' : g' ≠ [])
+    {tA tB : List Token} (hA : tokenizeRunes (g ++ post) = .ok tA) (hB : tokenizeRunes (g' ++ post) = .ok tB) :
+    AllRel (TokSh (newlines g) (newlines g')) tA tB := by
+  have hb : hdCh (g ++ post) ≠ 0xFEFF := by
+    intro e
+    have hs := gap_hd_stop hg hne post
+    rw [e] at hs
+    revert hs; decide
+  have H : Steps (start ([] ++ (g ++ post))) [] (atSt (g ++ post) {}) := by
+    rw [List.nil_append, start_atSt _ hb]; exact Steps.refl _
+  obtain ⟨tsPre', nA, nB, e1, e2, r1, r2⟩ :=
+    layout_main [] g g' post hg hg' hne' (Or.inr hb) H rfl rfl hA hB
+  cases r1
+  simp only [List.nil_append] at e1 e2
+  rw [e1, e2]; exact r2
+
+/-! ### kinds, texts and errors do not depend on the position bookkeeping -/
+
+theorem step_errs (r : Rune) (p q : PState) (h : p.errs = q.errs) : (step r p).errs = (step r q).errs := by
+  unfold step next
+  simp only []
+  split
+  · simp [h]
+  · split
+    · simp [h]
+    · split <;> exact h
+
+theorem ctxErrs : Ctx [] [] (fun p q => p.errs = q.errs) (fun p q => p.errs = q.errs) where
+  stopB := stop_hd_nil
+  pr_step r p q h := step_errs r p q h
+  pr_err p q h := by show p.errs + 1 = q.errs + 1; rw [h]
+  pr_eof _ _ p q h := h
+  cross p q h := h
+  at_err p q h := by show p.errs + 1 = q.errs + 1; rw [h]
+
+/-- two `Scan`s from states that differ only in line / column / offset bookkeeping (same look-ahead, same
+    unread runes, same error count): the same token (kind and text), the same look-ahead and unread runes
+    afterwards, the same error count -/
+theorem scan_bookkeeping_independent (f : Nat) (rest : List Rune) (ch : Int) (p q : PState)
+    (he : p.errs = q.errs) :
+    (scan f rest ch p).1 = (scan f rest ch q).1 ∧ (scan f rest ch p).2.1 = (scan f rest ch q).2.1 ∧
+    (scan f rest ch p).2.2.1 = (scan f rest ch q).2.2.1 ∧
+    (scan f rest ch p).2.2.2.errs = (scan f rest ch q).2.2.2.errs := by
+  have hb : Before [] [] (fun p q : PState => p.errs = q.errs) (ch, rest, p) (ch, rest, q) :=
+    ⟨rfl, he, fun _ => ⟨rfl, rfl⟩, rest, by simp, by simp⟩
+  rcases scan_sim_eq ctxErrs f _ _ hb with ⟨hns, _⟩ | ⟨h1, hl⟩
+  · exact absurd ⟨rfl, rfl⟩ hns
+  · rcases hl with hb' | ha
+    · obtain ⟨e1, e2, _, u, e3, e4⟩ := hb'
+      simp only [List.append_nil] at e3 e4
+      exact ⟨h1, e1, by rw [e3, e4], e2⟩
+    · exact absurd ⟨rfl, rfl⟩ ha.1
+
+/-- the statement without a hypothesis on `pre` is false: a "gap" inside a string literal is part of the token -/
+theorem gap_inside_string_counterexample :
+    ∃ pre g g' post : List Rune, Gap g ∧ Gap g' ∧ g ≠ [] ∧ g' ≠ [] ∧
+      ∃ toks toks', tokenizeRunes (pre ++ g ++ post) = .ok toks ∧ tokenizeRunes (pre ++ g' ++ post) = .ok toks' ∧
+        toks.map (fun t => (t.kind, t.text)) ≠ toks'.map (fun t => (t.kind, t.text)) := by
+  refine ⟨[⟨34, 1, false⟩, ⟨97, 1, false⟩], [⟨32, 1, false⟩], [⟨32, 1, false⟩, ⟨32, 1, false⟩], [⟨34, 1, false⟩],
+    Gap.white (show isWhite 32 = true by decide) Gap.nil,
+    Gap.white (show isWhite 32 = true by decide) (Gap.white (show isWhite 32 = true by decide) Gap.nil),
+    by simp, by simp, ?_⟩
+  refine ⟨_, _, rfl, rfl, ?_⟩
+  decide
 
 end LispModel.Proofs.LayoutFull
